@@ -45,8 +45,16 @@ def roots_arg(case):
         return None
     if "grid" in case:
         w = case["grid"][1]
-        return [None if r is None else (r // w, r % w) for r in case["roots"]]
-    return list(case["roots"])
+        out = [None if r is None else (r // w, r % w) for r in case["roots"]]
+    else:
+        out = list(case["roots"])
+    form = case.get("roots_form", "list")
+    if form == "tuple":
+        return tuple(out)
+    if form == "iter":
+        # a one-shot iterable (cspuz/puzzle/compass.py passes a map object)
+        return map(lambda r: r, out)
+    return out
 
 
 def post(case, solver, division):
@@ -200,7 +208,8 @@ def shard_e2e(arg):
                 for i in range(k):
                     if roots[i] is not None and i in labels:
                         roots[i] = labels.index(i)
-        return dict(base, k=k, labels=labels, roots=roots, allow_empty=draw(hs.booleans()),
+        return dict(base, k=k, labels=labels, roots=roots, roots_form=draw(hs.sampled_from(["list", "tuple", "iter"])),
+                    allow_empty=draw(hs.booleans()),
                     native=draw(hs.booleans()), form=draw(hs.sampled_from(FORMS)))
 
     def body(case):
@@ -217,7 +226,7 @@ def shard_e2e(arg):
 def run(ctx):
     ctx.rule = (
         "every labelled simple graph on 1..4 vertices (thorough: 5) and grid shapes with h*w <= 6 (8), "
-        "num_regions 1..3, allow_empty_group on/off, roots absent / a derived list with None holes, both "
+        "num_regions 1..3, allow_empty_group on/off, roots absent / a derived list with None holes (passed as list, tuple or one-shot iterator), both "
         "encodings: ALL k^n labelings decided on the posted program by an independent solver vs the "
         "definition; plus Hypothesis-generated find_answer cases with the labels as pinned IntArray1D/2D, "
         "arrays of expressions, lists of IntExpr and lists of Python ints. non-trivial = k >= 2 and a "
@@ -252,7 +261,8 @@ def run(ctx):
                         if with_roots and derive(ctx.seed, "wr", gi, k, ae, nat) % 2 and n > 2:
                             continue
                         roots = make_roots(ctx.seed, (gi, k, ae, nat), n, k) if with_roots else None
-                        cases.append(dict(g, k=k, allow_empty=ae, native=nat, roots=roots))
+                        form = ["list", "tuple", "iter"][derive(ctx.seed, "rf", gi, k, ae, nat) % 3]
+                        cases.append(dict(g, k=k, allow_empty=ae, native=nat, roots=roots, roots_form=form))
     cases.sort(key=lambda c: -(c["k"] ** c04.spec_of(c)[0]))
     nshard = 16 if quick else 64
     for r in pmap(shard_enum, [cases[i::nshard] for i in range(nshard)]):
